@@ -50,6 +50,13 @@ def gen_variant(rng, model, names):
         var["param_sep"] = rng.choice([" ", ",", ", "])
     else:
         var["param_decl"] = "list"
+    # ODEVariable objects with display names that differ from (and collide with other) identifiers
+    if plain and not any(s.get("lim") is not None for s in model["states"]) and rng.random() < 0.2:
+        var["state_decl"] = "objects"
+        var["state_display"] = gen._display_names(rng, names, list(names) + list(model["params"]))
+    if rng.random() < 0.25:
+        var["param_decl"] = "objects"
+        var["param_display"] = gen._display_names(rng, list(model["params"]), list(model["params"]) + list(names))
     return var
 
 
